@@ -126,8 +126,11 @@ class _P:
     # -- statements ------------------------------------------------------
     def top(self):
         if self.at('kw', 'PRAGMA'):
+            rest = [str(t[1]) for t in self.t[self.i + 1:]]
             self.i = len(self.t)
-            return ('pragma',)
+            name = rest[0].lower() if rest else ''
+            value = rest[2].upper() if len(rest) >= 3 and rest[1] == '=' else None
+            return ('pragma', name, value)
         if self.at('kw', 'INSERT'):
             return self.insert()
         if self.at('kw', 'UPDATE'):
@@ -517,9 +520,20 @@ def _lookup(env, qual, name):
     raise ModelError(f'no such column: {qual}.{name}')
 
 
+def _jcopy(v):
+    """What the dict <-> JSON adapter / converter of wn._db does to a metadata value: the stored
+    value and the value read back are fresh objects (leaves are immutable and stay shared)."""
+    t = type(v).__name__
+    if t in ('dict', 'LinDict'):
+        return {k: _jcopy(x) for k, x in v.items()}
+    if t in ('list', 'tuple'):
+        return [_jcopy(x) for x in v]
+    return v
+
+
 def _param(params, key):
     try:
-        return params[key]
+        return _jcopy(params[key])
     except (KeyError, IndexError, TypeError):
         raise sqlite3.ProgrammingError(f'missing binding {key!r}') from None
 
@@ -818,6 +832,7 @@ class MConn:
         self.rollbacks = 0
         self.progress_handler = None
         self.hook = None       # called before every statement: hook(kind, sql)
+        self.fk_on = True      # wn._db.connect() switches enforcement on for a new connection
 
     @property
     def in_transaction(self):
@@ -924,7 +939,17 @@ class MCur:
         self.rows = []
         self._pos = 0
         if k == 'pragma':
+            # PRAGMA foreign_keys is a no-op inside a transaction (SQLite documentation)
+            if a[1] == 'foreign_keys' and a[2] is not None and not conn.in_transaction:
+                conn.fk_on = a[2] in ('ON', '1', 'TRUE', 'YES')
             return self
+        if conn.progress_handler is not None:
+            # SQLite calls the progress handler every n VM instructions of a running statement
+            # and interrupts the statement when it returns non-zero.  How many instructions a
+            # statement takes depends on the size of the database, so the model lets the
+            # handler run once in every statement.
+            if conn.progress_handler():
+                raise OperationalError('interrupted')
         if not isinstance(params, (tuple, list, dict)):
             params = list(params) if not hasattr(params, 'keys') else params
         if FAST and NoTracing is not None and is_tracing():
@@ -939,7 +964,7 @@ class MCur:
         cx = _Ctx(db, params)
         if k == 'stmt':
             eval_ctes(a[1], cx)
-            self.rows = [tuple(r) for r in run_select(a[2], cx)]
+            self.rows = [tuple(_jcopy(v) for v in r) for r in run_select(a[2], cx)]
             return self
         conn.begin()
         if k == 'insert':
@@ -978,6 +1003,8 @@ class MCur:
 
     def _check_fks(self, t, row):
         db = self.db
+        if not self.conn.fk_on:
+            return
         cols = db.tables[t][0]
         for col, part, parcol, _ondel in db.schema[t]['fks']:
             v = row[cols.index(col)]
@@ -1047,6 +1074,8 @@ class MCur:
             self._delete(t, r, deleted)
         # NO ACTION / RESTRICT references are checked at the end of the statement
         db = self.db
+        if not self.conn.fk_on:
+            return
         for pt, prow in deleted:
             pcols = db.tables[pt][0]
             for ct, sch in db.schema.items():
@@ -1067,6 +1096,8 @@ class MCur:
             return
         rows[:] = [r for r in rows if r is not row]
         deleted.append((t, row))
+        if not self.conn.fk_on:
+            return
         for ct, sch in db.schema.items():
             for col, part, parcol, ondel in sch['fks']:
                 if part != t or ondel not in ('CASCADE', 'SET NULL'):
